@@ -241,7 +241,7 @@ def relations(rng, tier, rpt):
         code = ("import sys, json\nsys.path.insert(0, %r)\nfrom harness.props.bip44_common import IMPL\nfrom harness.canon import exc_kind\nout=[]\n"
                 "for l in json.loads(sys.argv[1]):\n    a=l.split(' ')[1:]\n    try: out.append('ok '+IMPL['bip44'](*a))\n    except Exception as ex: out.append('err '+exc_kind(ex))\nprint(json.dumps(out))\n") % VERIF
         p = subprocess.run([sys.executable, "-c", code, json.dumps(chunk)], stdout=subprocess.PIPE, stderr=subprocess.PIPE, text=True, timeout=300,
-                           env=dict(os.environ, PYTHONPATH=VERIF + ":/repo"))
+                           env=dict(os.environ, PYTHONPATH=VERIF + ":" + os.environ.get("VERIF_REPO", "/repo")))
         if p.returncode != 0:
             rep("fresh interpreter failed", chunk[0], p.stderr[-300:], "ok")
             continue
@@ -480,7 +480,7 @@ def relations(rng, tier, rpt):
 def _cat(names, threads=0):
     cmd = [sys.executable, "-m", "harness.c15_catalogue"] + (["--threads", str(threads)] if threads else []) + [json.dumps(names)]
     p = subprocess.run(cmd, stdout=subprocess.PIPE, stderr=subprocess.PIPE, text=True, timeout=600, cwd=VERIF,
-                       env=dict(os.environ, PYTHONPATH=VERIF + ":/repo", PYTHONDONTWRITEBYTECODE="1"))
+                       env=dict(os.environ, PYTHONPATH=VERIF + ":" + os.environ.get("VERIF_REPO", "/repo"), PYTHONDONTWRITEBYTECODE="1"))
     if p.returncode != 0:
         raise RuntimeError("catalogue run failed: " + p.stderr[-400:])
     return json.loads(p.stdout.strip().split("\n")[-1])
@@ -490,7 +490,7 @@ def _order_independence(rng, tier, rpt):
     from concurrent.futures import ThreadPoolExecutor
     bad = []
     names = json.loads(subprocess.run([sys.executable, "-m", "harness.c15_catalogue", "--list"], stdout=subprocess.PIPE, text=True, cwd=VERIF,
-                                      env=dict(os.environ, PYTHONPATH=VERIF + ":/repo")).stdout)
+                                      env=dict(os.environ, PYTHONPATH=VERIF + ":" + os.environ.get("VERIF_REPO", "/repo"))).stdout)
     with ThreadPoolExecutor(16) as ex:
         ref = dict(zip(names, [r[0] for r in ex.map(lambda n: _cat([n]), names)]))
         n_hist = 24 if tier == "quick" else 400
